@@ -1040,10 +1040,12 @@ impl Tuple {
             bitmap_size,
         )?;
 
-        // Copy existing deltas
+        // Copy existing deltas. Readers look for the next delta at the next DeltaHeader boundary
+        // (and values inside a delta are aligned relative to it), so the block keeps that alignment.
         if existing_deltas_size > 0 {
             let existing_deltas = &self.data.effective_data()[existing_deltas_start..];
-            buffer[cursor..cursor + existing_deltas_size].copy_from_slice(existing_deltas);
+            let start = DeltaHeader::aligned_offset(cursor);
+            buffer[start..start + existing_deltas_size].copy_from_slice(existing_deltas);
         }
 
         self.data = new_data;
@@ -1159,7 +1161,10 @@ impl Tuple {
             }
         }
 
-        // Existing deltas
+        // Existing deltas (kept on a DeltaHeader boundary)
+        if existing_deltas_size > 0 {
+            size = DeltaHeader::aligned_offset(size);
+        }
         size += existing_deltas_size;
 
         size
